@@ -64,11 +64,11 @@ def gen_case(rng, params, index):
             kind, cls, line = rng.choice(REAL_REJECTS)
             qml = ("import qmluic.QtWidgets\nQWidget {\n    id: root\n    QVBoxLayout {\n        %s {\n            id: r1\n            %s\n        }\n"
                    "        SimWidget { id: w2; onFired: w2.reset() }\n    }\n}\n" % (cls, line))
-            return {"kind": "rejection", "shape": kind, "qml": qml, "type_name": "Doc"}
+            return {"kind": "rejection", "shape": kind, "qml": qml, "type_name": "Doc", "doc_first": rng.chance(0.5)}
         kind, line = rng.choice(REJECTS)
         qml = ("import qmluic.QtWidgets\nQWidget {\n    id: root\n    QVBoxLayout {\n        SimWidget {\n            id: w1\n            %s\n        }\n"
                "        SimWidget { id: w2; onFired: w1.reset() }\n    }\n}\n" % line)
-        return {"kind": "rejection", "shape": kind, "qml": qml, "type_name": "Doc"}
+        return {"kind": "rejection", "shape": kind, "qml": qml, "type_name": "Doc", "doc_first": rng.chance(0.5)}
     return qtcheck.gen_doc_case(rng, "handlers", params["histories"], rng.randint(max(8, params["events"] // 3), params["events"]),
                                 doc_kwargs={"handler_p": 0.85, "max_handlers": 3, "n_bindings": rng.randint(2, 9) if rng.chance(0.8) else 0})   # 0: a document with handlers only
 
@@ -78,7 +78,8 @@ def run_case(case, env):
     probes = stats["probes"]
     if case["kind"] == "rejection":
         wd = env.fresh_dir("qt")
-        tr = build.translate(env, case["qml"], case["type_name"], wd)
+        # a refused document is refused wherever it stands among the sources of the invocation
+        tr = build.translate(env, case["qml"], case["type_name"], wd, doc_first=bool(case.get("doc_first")))
         stats["runs"] += 1
         viol = []
         qtcheck._bump(probes, "invalid_handlers_planted")
